@@ -24,6 +24,9 @@ fn main() {
         "C12" => props::c12::run(&mut ctx),
         "C13" => props::c13::run(&mut ctx),
         "C14" => props::c14::run(&mut ctx),
+        "C15" => props::c15::run(&mut ctx),
+        "C16" => props::c16::run(&mut ctx),
+        "C17" => props::c17::run(&mut ctx),
         other => {
             eprintln!("zb: unknown property {other}");
             std::process::exit(3);
